@@ -55,6 +55,14 @@ K_STICKY = "sticky-dimension"
 K_ROWORDER = "element-nodal-row-order"
 K_CONTAINER = "set-container"
 BAD_CONTAINERS = ("set", "frozenset", "dict_keys", "generator")     # refused by 0e66e4b's _check_int32
+# regressions of 1c1257e / 57828f0 (review fixreview-d-vmap), repaired by tools/fixes/C20-6-variable-checks.diff
+K_IDCOL = "node-id-column"                  # NODE variable from a frame that carries node_id as a column
+K_OBJSET = "set-object-dtype"               # set members in an object-dtype Index / array / Series
+K_BADMESH = "unusable-mesh-exception"       # add_variable(mesh=5 / frame without ids) raises a raw AttributeError / KeyError
+K_SLOW = "element-nodal-slow"               # add_variable(ELEMENT_NODAL) walks the stored elements in python
+K_LEVEL = "extra-index-level"               # ELEMENT_NODAL variable frame with an additional index level
+K_COLLAPSED = "collapsed-element"           # geometry with a node repeated in an element's connectivity
+OBJ_CONTAINERS = ("objindex", "objarray", "objseries")
 
 _MOD = {}
 
@@ -96,6 +104,9 @@ def make_frame(fr):
                                      np.asarray([r[1] for r in rows], dtype=np.int64)],
                                     names=["element_id", "node_id"])
     data = np.asarray([r[2] for r in rows], dtype=float).reshape(len(rows), len(fr["cols"]))
+    if fr.get("extra_level"):          # an additional index level besides element_id and node_id
+        idx = pd.MultiIndex.from_arrays([idx.get_level_values(0), idx.get_level_values(1), np.ones(len(rows), dtype=np.int64)],
+                                        names=["element_id", "node_id", "load_step"])
     df = pd.DataFrame(data, index=idx, columns=list(fr["cols"]))
     if fr.get("f32"):
         df = df.astype(np.float32)
@@ -358,6 +369,12 @@ def make_container(ids, kind):
         return np.asarray(ids, dtype=np.int32) if all(fits32(i) for i in ids) else np.asarray(ids, dtype=np.int64)
     if kind == "floatarray":
         return np.asarray(ids, dtype=np.float64) if all(abs(i) < 2 ** 53 for i in ids) else np.asarray(ids, dtype=np.int64)
+    if kind == "objindex":
+        return pd.Index(ids, dtype=object)
+    if kind == "objarray":
+        return np.array(ids, dtype=object)
+    if kind == "objseries":
+        return pd.Series(ids, dtype=object)
     if kind == "tuple":
         return tuple(ids)
     if kind == "set":
@@ -384,7 +401,12 @@ def apply_export(ex, op, frames):
     if k == "geom":
         ex.add_geometry(op["name"], frames[op["frame"]])
     elif k == "var":
-        ex.add_variable(op["state"], op["geom"], op["var"], frames[op["frame"]],
+        mesh = frames[op["frame"]]
+        if op.get("forget_cache") and isinstance(getattr(ex, "_connectivity", None), dict):
+            ex._connectivity.clear()           # what the exporter remembers of its geometries: it has to manage with the file
+        if op.get("ids_as_columns"):           # node_id (and element_id) as columns: groupby('node_id') takes either
+            mesh = mesh.reset_index()
+        ex.add_variable(op["state"], op["geom"], op["var"], mesh,
                         column_names=None if op.get("cols") is None else list(op["cols"]),
                         location=location_arg(op.get("loc")))
     elif k == "set":
@@ -395,6 +417,9 @@ def apply_export(ex, op, frames):
         if op["call"] == "it":
             content = {0: {}, 1: IT_CONTENT, 2: {"T": [0, "BAD"]}}[op["content"]]
             ex.add_integration_types(content)
+        elif op["call"] == "badmesh":
+            mesh = {"int": 5, "none": None, "noids": frames[0].reset_index(drop=True) if frames else pd.DataFrame({"x": [1.0]})}[op["kind"]]
+            ex.add_variable("S-bad", op["geom"], "V", mesh, column_names=["x"], location=location_arg(op["loc"]))
         else:
             ex.set_group_attribute(op["path"], op["key"], op["value"])
 
@@ -561,6 +586,19 @@ def resolved_loc(op):
     return loc
 
 
+def special_class(case, op):
+    """The finding class of review fixreview-d-vmap whose input mechanism this call has, else None."""
+    if op["op"] == "set" and op.get("container") in OBJ_CONTAINERS:
+        return K_OBJSET
+    if op["op"] == "var":
+        loc = resolved_loc(op)
+        if op.get("ids_as_columns") and loc == 2:
+            return K_IDCOL
+        if loc == 6 and case["frames"][op["frame"]].get("extra_level"):
+            return K_LEVEL
+    return None
+
+
 def op_has_overflow(case, op):
     """The ids this call has to store do not all fit int32."""
     if op["op"] == "set":
@@ -589,6 +627,8 @@ def mechanism_from(case, classes):
         if K_OVERFLOW in classes and op_has_overflow(case, op):
             return i
         if K_CONTAINER in classes and op["op"] == "set" and container_is_bad(op):
+            return i
+        if special_class(case, op) in classes:
             return i
         if op["op"] == "geom":
             geoms.setdefault(op["name"], []).append(op["frame"])
@@ -680,7 +720,7 @@ class Run:
         fn2 = self.fn + ".inj"
         shutil.copyfile(self.fn, fn2)
         try:
-            ex2 = copy.copy(self.ex)
+            ex2 = copy.deepcopy(self.ex)
             ex2._file_name = fn2
             if getattr(ex2, "file_name", None) != fn2:
                 return                                  # the exporter no longer keeps its path there: no trial
@@ -738,6 +778,7 @@ class Run:
                 klass = K_STICKY if sticky else why[1]
                 if k == "set" and container_is_bad(op):
                     klass = K_CONTAINER
+                klass = special_class(self.case, op) or klass
                 self.fail(f"op {pos}: {why[0]} raised {err_name(exc)}: {str(exc)[:120]}"
                           + (" (an earlier add_geometry had a 3D frame)" if sticky else ""), klass)
             return
@@ -809,8 +850,114 @@ class Run:
             return ("add_node_set / add_element_set with members of the mesh", "export-raises")
         return None
 
+    def scenario_op(self, pos, op):
+        """Scenarios outside the model, each on a file of its own (the history's file is not touched)."""
+        self.info.append(None)
+        self.segs.append("x")
+        tmp = tempfile.mkdtemp(prefix="c20s_", dir=tempfile.gettempdir())
+        try:
+            if op["call"] == "collapsed":
+                self.collapsed_scenario(pos, op, os.path.join(tmp, "s.vmap"))
+            else:
+                self.timing_scenario(pos, op, os.path.join(tmp, "s.vmap"))
+        finally:
+            shutil.rmtree(tmp, ignore_errors=True)
+
+    def collapsed_scenario(self, pos, op, fn):
+        """A mesh with collapsed elements (a node repeated in the connectivity, e.g. a quadrilateral 1 2 4 4): the key
+        (element, node) is not unique, pyLife's own importer multiplies such rows, so only the FILE is judged: MYVALUES of an
+        element nodal variable follow the stored connectivity, the occurrences of a repeated pair in their order."""
+        M = mods()
+        gfr = {"cols": ["x", "y", "v"], "rows": op["rows"]}
+        vrows = [op["rows"][i] for i in op["order"]]
+        vfr = {"cols": ["x", "y", "v"], "rows": vrows}
+        ex = M["exp"](fn)
+        try:
+            ex.add_geometry("g", make_frame(gfr))
+            if op.get("forget_cache") and isinstance(getattr(ex, "_connectivity", None), dict):
+                ex._connectivity.clear()
+            ex.add_variable("s", "g", "V", make_frame(vfr), column_names=["v"], location=location_arg(6))
+        except Exception as e:
+            self.fail(f"op {pos}: a mesh with a collapsed element (rows {[(r[0], r[1]) for r in op['rows']][:8]}): "
+                      f"add_geometry / add_variable(ELEMENT_NODAL) raised {err_name(e)}: {str(e)[:120]}", K_COLLAPSED)
+            return
+        with h5py.File(fn, "r") as f:
+            els = f["VMAP/GEOMETRY/g/ELEMENTS/MYELEMENTS"][:, 0]
+            stored = [(int(r["myIdentifier"]), int(n)) for r in els for n in r["myConnectivity"]]
+            ids = [int(x) for x in f["VMAP/VARIABLES/s/g/V/MYGEOMETRYIDS"][:, 0]]
+            vals = [cell(x) for x in f["VMAP/VARIABLES/s/g/V/MYVALUES"][:, 0]]
+        pools = {}
+        for e, n, v in vrows:
+            pools.setdefault((e, n), []).append(cell(v[2]))
+        want = [pools[k].pop(0) if pools.get(k) else None for k in stored]
+        if ids != sorted({e for e, _ in stored}) or vals != want:
+            self.fail(f"op {pos}: collapsed element: MYVALUES {vals[:8]} for the stored connectivity {stored[:8]}, the frame has "
+                      f"{want[:8]}", K_COLLAPSED)
+            return
+        # a genuinely duplicated row is not the geometry's own repetition: refused, nothing stored
+        try:
+            ex.add_variable("s", "g", "W", make_frame({"cols": vfr["cols"], "rows": vrows + vrows[:1]}), column_names=["v"],
+                            location=location_arg(6))
+            self.fail(f"op {pos}: collapsed element: a frame with a surplus copy of a row is accepted", K_COLLAPSED)
+        except Exception:
+            with h5py.File(fn, "r") as f:
+                if "W" in f["VMAP/VARIABLES/s/g"]:
+                    self.fail(f"op {pos}: collapsed element: the refused variable W is in the file", "partial-after-failure")
+
+    def timing_scenario(self, pos, op, fn):
+        """Exporting an element nodal variable from the frame the geometry was exported from must not cost a multiple of
+        exporting a nodal variable from it (generous: 4 x + 10 ms, best of three each; measured 0.6 x on the repaired tree,
+        15 x with the python loops over the stored elements of 57828f0)."""
+        import time
+        M = mods()
+        nel = op["elements"]
+        e = np.repeat(np.arange(1, nel + 1), 4)
+        b = np.arange(1, nel + 1)
+        nn = np.column_stack([b, b + 1, b + nel + 2, b + nel + 1]).ravel()
+        m = pd.DataFrame({"x": nn % 1000 * 1.0, "y": nn // 1000 * 1.0, "z": 0.0, "v": nn * 1.0},
+                         index=pd.MultiIndex.from_arrays([e, nn], names=["element_id", "node_id"]))
+        ex = M["exp"](fn)
+        ex.add_geometry("1", m)
+        t_en, t_node = [], []
+        for i in range(3):
+            t = time.perf_counter()
+            ex.add_variable("S%d" % i, "1", "V", m, column_names=["v"], location=location_arg(6))
+            t_en.append(time.perf_counter() - t)
+            t = time.perf_counter()
+            ex.add_variable("S%d" % i, "1", "N", m, column_names=["v"], location=location_arg(2))
+            t_node.append(time.perf_counter() - t)
+        self.injected["timing:en_over_node_x100"] = int(100 * min(t_en) / max(min(t_node), 1e-9))
+        if min(t_en) > 4.0 * min(t_node) + 0.010:
+            self.fail(f"op {pos}: add_variable(ELEMENT_NODAL) of {len(m)} rows in stored order takes {min(t_en):.3f} s, "
+                      f"add_variable(NODE) of the same frame {min(t_node):.3f} s", K_SLOW)
+
+    def badmesh_op(self, pos, op):
+        """add_variable with something that is not a mesh frame: refused with the exporter's own VMAPExportError (KeyError for
+        an unknown geometry), the file stays as it is."""
+        before = self.dump()
+        exc = None
+        try:
+            apply_export(self.ex, op, self.frames)
+        except Exception as e:
+            exc = e
+        self._dump = self._snap = None
+        self.info.append(None if exc is None else err_name(exc))
+        self.segs.append("x")
+        diff = dump_diff(before, self.dump())
+        known = op["geom"] in self.snap()["geoms"]
+        want = "VMAPExportError" if known else "KeyError"
+        if exc is None or err_name(exc) != want:
+            self.fail(f"op {pos}: add_variable(mesh={op['kind']}) " + ("did not raise" if exc is None else
+                      f"raised {err_name(exc)}: {str(exc)[:100]}") + f", expected {want}", K_BADMESH)
+        if diff:
+            self.fail(f"op {pos} (badmesh) changed the file at {diff[:4]}", "partial-after-failure")
+
     def other_op(self, pos, op):
         """Exporter calls outside the model (SYSTEM datasets, attributes): they must leave geometries and variables alone."""
+        if op["call"] in ("collapsed", "timing"):
+            return self.scenario_op(pos, op)
+        if op["call"] == "badmesh":
+            return self.badmesh_op(pos, op)
         before = self.dump()
         exc = None
         try:
@@ -1198,6 +1345,8 @@ def gen_frame(rng, tier, want=None):
         fr["obj"] = [rng.choice(coord_names(fr))]
     elif rng.random() < 0.12:
         fr["obj"] = [rng.choice(pcol + mcol)]                   # a data column that cannot be stored
+    if want is None and rng.random() < 0.06:
+        fr["extra_level"] = True                                # a third index level besides element_id / node_id
     if want is None and "obj" not in fr and rng.random() < 0.08:
         fr["f32"] = True                                        # a binary32 frame: cells are binary32 values
         for r in fr["rows"]:
@@ -1207,7 +1356,7 @@ def gen_frame(rng, tier, want=None):
 
 
 CONTAINERS = ["index", "index", "list", "tuple", "set", "frozenset", "dict_keys", "generator", "range", "series", "ndarray",
-              "int32array", "floatarray"]
+              "int32array", "floatarray", "objindex", "objarray", "objseries"]
 
 
 def reordered(rng, fr, mode):
@@ -1241,7 +1390,27 @@ def reordered(rng, fr, mode):
     out = {"cols": list(fr["cols"]), "rows": rows}
     if fr.get("obj"):
         out["obj"] = list(fr["obj"])
+    if rng.random() < 0.25:
+        out["extra_level"] = True
     return out
+
+
+def gen_collapsed(rng):
+    """A mesh with one or two collapsed elements and a permutation of its rows for the variable's frame."""
+    rows, nid = [], 1
+    for e in rng.sample(range(1, 40), rng.randint(1, 3)):
+        ns = rng.sample(range(1, 30), rng.choice([3, 4]))
+        if rng.random() < 0.75:
+            ns[rng.randrange(1, len(ns))] = ns[0] if rng.random() < 0.5 else ns[-1]      # a repeated node
+        for n in ns:
+            rows.append([e, n, [float(n % 5), float(n // 5), float(len(rows)) + 0.5]])
+    order = list(range(len(rows)))
+    mode = rng.choice(["same", "reversed", "shuffled"])
+    if mode == "reversed":
+        order.reverse()
+    elif mode == "shuffled":
+        rng.shuffle(order)
+    return {"op": "other", "call": "collapsed", "rows": rows, "order": order, "forget_cache": rng.random() < 0.4}
 
 
 def frame_info(fr):
@@ -1354,6 +1523,10 @@ def gen_case(rng, tier):
                 cols = rng.sample(sorted(set(pool)), k)
                 op = {"op": "var", "state": st, "geom": g, "var": rng.choice(["A", "B", "TEMP", "V1"]), "frame": fi,
                       "cols": cols, "loc": loc}
+            if resolved_loc(op) == 2 and rng.random() < 0.15:
+                op["ids_as_columns"] = True
+            if resolved_loc(op) == 6 and rng.random() < 0.2:
+                op["forget_cache"] = True
             ops.append(op)
             if st not in states:
                 states.append(st)
@@ -1382,9 +1555,15 @@ def gen_case(rng, tier):
             sets_known.append((g, kind, name if isinstance(name, str) else ""))
         elif r < 0.76:
             ops.append({"op": "list", "geom": rng.choice(geoms + ["nogeo"]) if rng.random() < 0.1 else rng.choice(geoms)})
-        elif r < 0.80:
-            if rng.random() < 0.5:
+        elif r < 0.83:
+            q = rng.random()
+            if q < 0.3:
                 ops.append({"op": "other", "call": "it", "content": rng.choice([0, 1, 1, 2])})
+            elif q < 0.5:
+                ops.append({"op": "other", "call": "badmesh", "kind": rng.choice(["int", "none", "noids"]),
+                            "geom": rng.choice(geoms + ["nogeo"]), "loc": rng.choice([2, 6])})
+            elif q < 0.7:
+                ops.append(gen_collapsed(rng))
             else:
                 path = rng.choice(["VMAP/GEOMETRY/" + rng.choice(geoms), "INVALID", "VMAP/VARIABLES", "VMAP/GEOMETRY/nogeo"])
                 ops.append({"op": "other", "call": "attr", "path": path, "key": rng.choice(["MYNAME", "MYSIZE"]),
@@ -1462,12 +1641,15 @@ def tiny_cases():
                 fr2 = {"cols": ["x", "y", "z", "d1", "p1"],
                        "rows": sorted(([r[0], r[1], r[2][:4] + [5000.0 + 10.0 * r[0] + r[1]]] for r in fr_rows),
                                       key=lambda r: (r[0], r[1]))}
+                if pi % 2:
+                    fr2["extra_level"] = True
                 nodes = sorted({r[1] for r in rows})
                 inj = [["ds", 1 + pi % 3], ["ds", 1 + pi % 2], ["attr", 1], ["ds", 1], ["attr", 1]]
                 if pi % 2:
                     inj[0] = ["attr", 1 + (pi // 2) % 2]
                 ops = [{"op": "geom", "name": "g", "frame": 0, "inject": inj[0]},
-                       {"op": "var", "state": "s", "geom": "g", "var": "N", "frame": 0, "cols": ["d1"], "loc": 2, "inject": inj[1]},
+                       {"op": "var", "state": "s", "geom": "g", "var": "N", "frame": 0, "cols": ["d1"], "loc": 2, "inject": inj[1],
+                        "ids_as_columns": pi % 3 == 0},
                        {"op": "var", "state": "s", "geom": "g", "var": "EN", "frame": 0, "cols": ["p1", "d1"], "loc": 6,
                         "inject": inj[2]},
                        {"op": "var", "state": "s", "geom": "g", "var": "EN2", "frame": 1, "cols": ["p1"], "loc": 6},
@@ -1572,6 +1754,11 @@ class C20(Prop):
         "elements of the geometry, a storage failure) may leave the (empty) state / geometry groups it created under /VMAP/VARIABLES; "
         "they hold no variable, are not compared and not reported.  A call refused by the argument checks (unknown geometry, no column "
         "names / location, ids outside int32) creates nothing (theorem refused_addVariable_creates_nothing)",
+        "outside the model, judged by the oracle on files of their own: a mesh with a collapsed element (a node repeated in "
+        "an element's connectivity; the keys are not distinct, pyLife's importer multiplies such rows) - MYVALUES must follow "
+        "the stored connectivity; add_variable with something that is no mesh frame must raise VMAPExportError; a timing clause "
+        "(an ELEMENT_NODAL export in stored order costs at most 4 x a NODE export of the same 1e5-row frame + 10 ms); the "
+        "exporter's in-memory note of the connectivity it wrote is cleared before some calls (it then reads the file)",
         "not compared with the model (incidental): exception classes, the order and multiplicity of set members in the "
         "file, the row order of a nodal variable's datasets; names with '/' (HDF5 paths) and re-opening an existing file "
         "with VMAPExport (truncates) are outside the generator; NaN / fractional ids in a frame or a set and files whose MYCOORDINATES "
@@ -1713,7 +1900,7 @@ class C20(Prop):
         # mechanism classes were an OPEN known finding again, the segments from the first call on which that defect's
         # input mechanism acts would be the oracle's business (it reports the finding class) and model and code would have to
         # agree only up to that call.  All four classes are fixed: the set below is empty, `stop` is None, every segment is compared.
-        stop = mechanism_from(case, self._open_classes() & {K_OVERFLOW, K_STICKY, K_ROWORDER, K_CONTAINER})
+        stop = mechanism_from(case, self._open_classes() & {K_OVERFLOW, K_STICKY, K_ROWORDER, K_CONTAINER, K_IDCOL, K_OBJSET, K_LEVEL})
         if stop is not None:
             a, b = a[:stop], b[:stop]
         for i, (x, y) in enumerate(zip(a, b)):
